@@ -35,12 +35,17 @@ func (a *Authorizer) ID() string { return a.Node.ID }
 type Options struct {
 	// Fund is sent by the owner to every authorizer wallet and delegate wallet (default 100 ZCN).
 	Fund currency.Coin
-	// Stake is locked by each delegate wallet in its authorizer's stake pool after registration
-	// (default 10 ZCN; NoStake leaves the pools empty). The contract does not require stake to register
-	// or to sign, but a pool whose stake is below min_stake_per_delegate (1 ZCN) silently receives no
-	// mint fee.
-	Stake   currency.Coin
-	NoStake bool
+	// Stake, when > 0, is locked by each delegate wallet in its authorizer's stake pool after registration.
+	// The contract requires no stake to register or to sign, so the default is none. Two things to know:
+	// a pool whose stake is below its min_stake (= min_stake_per_delegate at registration, 1 ZCN as shipped)
+	// silently receives no mint fee; and `add-to-delegate-pool` stores the pool in an encoding the contract's own
+	// getter reads back as an empty pool (see StakePoolView.Bare), after which the delegate wallet is no longer
+	// recognised by collect-rewards / delete-authorizer / update-authorizer-config and the stake cannot be unlocked.
+	Stake currency.Coin
+	// Config, when not empty, is applied with `update-global-config` by the owner before the authorizers are
+	// registered. With the shipped config every update must also set min_stake >= 0.0000000001, because the
+	// contract validates min_stake >= 1 and the shipped value is 0.
+	Config map[string]string
 	// ServiceCharge and NumDelegates of the stake pools (defaults 0.1 and 5).
 	ServiceCharge float64
 	NumDelegates  int
@@ -84,7 +89,12 @@ func Run(h *sim.History, what string, txn *transaction.Transaction) (sim.Outcome
 	return o, nil
 }
 
-// SetupBridge registers nAuthorizers authorizers through real transactions with the default options.
+// EarnWithoutStake is a config under which an authorizer's empty stake pool receives the mint fee
+// (credited as service charge of its delegate wallet).
+var EarnWithoutStake = map[string]string{"min_stake_per_delegate": "0", "min_stake": "0.0000000001"}
+
+// SetupBridge registers nAuthorizers authorizers through real transactions with the default options
+// (no stake: the contract needs none).
 func SetupBridge(h *sim.History, nAuthorizers int) (*Bridge, error) {
 	return SetupBridgeWith(h, nAuthorizers, Options{})
 }
@@ -95,12 +105,6 @@ func SetupBridgeWith(h *sim.History, nAuthorizers int, opt Options) (*Bridge, er
 	if opt.Fund == 0 {
 		opt.Fund = 100 * ZCN
 	}
-	if opt.Stake == 0 && !opt.NoStake {
-		opt.Stake = 10 * ZCN
-	}
-	if opt.NoStake {
-		opt.Stake = 0
-	}
 	if opt.ServiceCharge == 0 {
 		opt.ServiceCharge = 0.1
 	}
@@ -108,6 +112,11 @@ func SetupBridgeWith(h *sim.History, nAuthorizers int, opt Options) (*Bridge, er
 		opt.NumDelegates = 5
 	}
 	b := &Bridge{H: h, Owner: h.S.Owner, Fee: opt.Fee}
+	if len(opt.Config) > 0 {
+		if _, err := Run(h, "update-global-config", b.UpdateGlobalConfig(b.Owner, opt.Config)); err != nil {
+			return nil, err
+		}
+	}
 	for i := 0; i < nAuthorizers; i++ {
 		a := NewAuthorizer(opt.First + i)
 		h.Know(a.Node.ID, a.Node.Name)
